@@ -222,6 +222,57 @@ def real_classes(ctx):
             ctx.count(1, distinct_key=("real", label, rep))
 
 
+def index_width(ctx):
+    """spec/IndexWidth.tla at real scale: the assembled matrix of a system whose N * N exceeds 2^31 (resp. a small one) built
+    from a connectivity of 32-bit (resp. 64-bit) integers equals the coordinate-format sum formed with 64-bit indices."""
+    from scipy import sparse
+    from harness.matsimu import MatSimu
+    from EasyFEA.FEM import ElemType, Mesh
+    from EasyFEA.FEM._group_elem import GroupElemFactory
+
+    res = ctx.tlc_must_hold("IndexWidth", "IndexWidth.cfg", what="Threshold (keys exact / monotone exactly when N*N fits the key type)", workers=4)
+    ctx.tlc_must_fail("IndexWidth", "IndexWidth_neg_injective.cfg", expect="InjectiveIsEnough")
+    for case in sorted(res.prints.get("CASE", []), key=lambda c: (c["cfg"]["size"], c["cfg"]["itype"])):
+        itype, size = case["cfg"]["itype"], case["cfg"]["size"]
+        nx, ny = (160, 150) if size == "over32" else (6, 5)
+        dofn = 2
+        ndof = nx * ny * dofn
+        if not (case["ndofAtLeast"] <= ndof <= case["ndofAtMost"]):
+            from harness.core import MachineryError
+
+            raise MachineryError(f"index_width: the grid has {ndof} dofs, outside the class {case}")
+        xs, ys = np.meshgrid(np.arange(nx, dtype=float), np.arange(ny, dtype=float), indexing="ij")
+        coords = np.c_[xs.ravel(), ys.ravel(), np.zeros(nx * ny)]
+        idx = np.arange(nx * ny).reshape(nx, ny)
+        conn = np.stack([idx[:-1, :-1].ravel(), idx[1:, :-1].ravel(), idx[1:, 1:].ravel(), idx[:-1, 1:].ravel()], axis=1)
+        # a renumbering, so that large row numbers meet small column numbers from the first elements on
+        perm = np.random.default_rng(3).permutation(nx * ny)
+        c2 = np.zeros_like(coords)
+        c2[perm] = coords
+        conn = perm[conn].astype(np.int32 if itype == "int32" else np.int64)
+        mesh = Mesh({ElemType.QUAD4: GroupElemFactory.Create(ElemType.QUAD4, conn, c2)})
+        Ne, n = conn.shape[0], 4 * dofn
+        base = (np.arange(n)[:, None] * 3 + np.arange(n)[None, :] * 5) % 7 - 3.0
+        Ke = base[None] + (np.arange(Ne) % 5)[:, None, None]
+        sim = MatSimu(mesh, dof_n=dofn, local_fn=lambda simu, g: (Ke, None, None, None), groups_fn=lambda m: m.Get_list_groupElem(2))
+        dofs = (conn.astype(np.int64)[:, :, None] * dofn + np.arange(dofn)[None, None, :]).reshape(Ne, n)
+        rows = np.repeat(dofs, n, axis=1).ravel()
+        cols = np.tile(dofs, (1, n)).ravel()
+        ref = sparse.coo_matrix((Ke.ravel(), (rows, cols)), shape=(ndof, ndof)).tocsr()
+        for rep in range(2):
+            if rep == 1:
+                sim.Need_Update()
+            K = sim.Get_K_C_M_F()[0].tocsr()
+            diff = (K - ref)
+            err = np.abs(diff.data).max(initial=0.0)
+            if K.shape != ref.shape or err > 0:
+                bad = int(np.count_nonzero(diff.data))
+                ctx.violation(f"index-width/{itype}/{size}", f"{ndof} dofs, connectivity of {itype}: the assembled matrix (assembly #{rep + 1}) differs from the sum formed with 64-bit indices in {bad} entries (max {err:.3g}); N*N = {ndof * ndof} {'exceeds' if ndof * ndof > 2**31 else 'fits'} 2^31", {"itype": itype, "size": size, "ndof": ndof})
+                break
+        ctx.count(2, distinct_key=("index-width", itype, size))
+    ctx.section("index_width", cases=[c["cfg"] for c in res.prints.get("CASE", [])], large_system_dofs=160 * 150 * 2)
+
+
 def _mixed_elastic():
     from EasyFEA import Models, Simulations
     from EasyFEA.FEM import ElemType
@@ -296,5 +347,6 @@ def run(ctx):
     if full:
         ctx.sample({"behaviour": [s["act"] | ({"order": s["last"]["order"], "pat": s["last"]["pat"]} if s["act"]["name"] == "Assemble" else {}) for s in full[0]]})
     real_classes(ctx)
+    index_width(ctx)
     ctx.cov["rule"] = "TLC simulation-mode behaviours of Assembly.tla replayed bit-for-bit on a _Simu subclass; distinct = distinct (mesh variant, dof_n, group order, slot pattern, complex, memo hit, system size)"
     ctx.assume("integer element data sum exactly in floating point, so the comparison is exact; a SetMesh as first action picks an arbitrary other initial mesh (the memo is cleared either way)")
